@@ -263,7 +263,7 @@ def judge(case, obs):
 class C38(Check):
     id = "C38"
     prop_file = "theories/Properties/Properties_C38.v"
-    theorems = ("C38_lookup_precedence", "C38_lookup_precedence_null_override_refuted",
+    theorems = ("C38_lookup_precedence",
                 "C38_lookup_stable", "C38_lookup_twice",
                 "C38_set_other", "C38_unset_other", "C38_lookup_other", "C38_setenv_other",
                 "C38_set_then_lookup", "C38_env_by_any_name", "C38_file_by_any_name", "C38_reg_syn_names",
@@ -285,9 +285,7 @@ class C38(Check):
                   "and unknown names report not-found; the command line yields for each name the comma-joined values in order, "
                   "--mca over --gmca. For every history without a re-read of the files and a table without shared names: the "
                   "file stage is characterised from the list read at initialisation (first entry under the names the parameter "
-                  "had when the value was cached), and that list holds for a name the last line of the left-most file. The "
-                  "full-strength precedence statement is refuted for a NULL string override (lookup_override runs "
-                  "strdup(NULL)). Tied to the code by a differential run of libparsec against the extracted model. Full, except "
+                  "had when the value was cached), and that list holds for a name the last line of the left-most file. Tied to the code by a differential run of libparsec against the extracted model. Full, except "
                   "the points listed as not modelled.")
     level_note = ("Not modelled: strtol beyond canonical decimal strings that fit a long (octal/hex prefixes, blanks, "
                   "saturation); the '~/' expansion of string values; indices equal to the table size (the bound checks are "
@@ -546,7 +544,7 @@ class C38(Check):
             c = self.one_case(r)
             if c:
                 out.append(c)
-        # the refuted statement: a NULL override of a string parameter
+        # a NULL override of a string parameter (crashed before the repair of lookup_override)
         out.append("files | reg s =t =s 0 0 =d 0 | set 1 s NULL | look 1 s")
         return out
 
@@ -593,8 +591,14 @@ class C38(Check):
             return "crash-%s-%s" % (op, "null-override" if " s NULL" in case else "other")
 
         def src(x):
-            return x.split(":")[0].split("@")[0]
-        return "%s-%s-%s" % (op, src(exp), src(got))
+            return re.sub(r"[^A-Za-z<>]", "", x.split(":")[0].split("@")[0])[:8]
+        if op == "look":
+            return "look-%s-%s" % (src(exp), src(got))
+        if op == "reg":
+            return "reg-index" if exp.split(":")[0] != got.split(":")[0] else "reg-value"
+        if op == "cmd":
+            return "cmd-join"
+        return op
 
     def search_cases(self):
         return self.directed()
